@@ -294,18 +294,21 @@ impl Tracker {
     }
 }
 
-/// Does the history enter any known-defect zone?
+/// Does the history enter any known-defect zone? (Same tree evolution as the
+/// generator: crashes are followed with the pessimistic durable image.)
 pub fn in_zone(h: &[Op]) -> Option<&'static str> {
-    let mut t = Tree::new();
+    let mut dm = crate::durable::Durable::new(false, None);
     let mut zt = Tracker::new();
     for op in h {
-        if let Some(z) = zt.check(&t, op) {
+        if let Some(z) = zt.check(&dm.v, op) {
             return Some(z);
         }
-        zt.apply(&t, op);
-        if !matches!(op, Op::Crash) {
-            t.apply(op);
-            t.events.clear();
+        zt.apply(&dm.v, op);
+        if matches!(op, Op::Crash) {
+            dm.crash_assume();
+        } else {
+            dm.v.apply(op);
+            dm.absorb();
         }
     }
     None
